@@ -24,6 +24,18 @@ def exc(name, *a, tstages=2, throwers=1, **kw):
 
 
 _Q = ('quick', 'thorough')
+_T = ('thorough',)
 INSTANCES = [
+    # serial sink throws; items queued behind it are discarded
     exc('g_s_p1', 1, 1, tstages=2, tiers=_Q),
+    # overloaded pool: stages run inline inside the generator, which runs inline inside pipeline(): the exception of an
+    # unlimited stage travels through frames without a handler
+    exc('g_xu_s_p1_c2', 1, 2, l1=99, ctx=2, tstages=6, tiers=_Q),
+    # the generator itself throws
+    exc('gT_x_s_p1', 1, 2, tstages=1, tiers=_Q),
+    # thorough
+    exc('g_x2_s_p2', 2, 2, l1=2, tstages=6, tiers=_T, timeout=3000),   # limit-2 transform or serial sink throws, 2 threads
+    exc('g_s2_p1', 1, 1, l1=2, tstages=2, tiers=_T, timeout=3000),     # limit-2 sink: both items packaged before the throw
+    exc('g_s_p2_t2', 2, 1, tstages=3, throwers=2, tiers=_T, timeout=3000),  # two throwers (generator and/or sink): "first" exception
+    exc('g_f_s_p1', 1, 2, flt=1, tstages=4, tiers=_T, timeout=3000),   # sink behind a filter throws
 ]
